@@ -151,6 +151,21 @@ fn adapter_op<V: crate::backends::Full>(o: &mut Outcome, kind: usize, which: usi
                 ops::dec::<V>(&keys::local::<V>(kb), &want, &ad)
             }
         };
+        // the same model token through a footer *type* whose decode -> encode is not the identity: the footer piece of
+        // the pre-authentication encoding is the bytes on the wire
+        if !suffixed && which == 1 {
+            let padded: Vec<u8> = [&b" "[..], &ft[..], &b" "[..]].concat();
+            let body_p = spec::local_encrypt(V::VER, "", &key, &nonce, &msg, &padded, &ad);
+            let want_p = join_token(&format!("v{}.local.", V::VER), &body_p, Some(&padded));
+            let r = subject(|| -> Result<Vec<u8>, paseto_core::PasetoError> {
+                let t: paseto_core::tokens::SealedToken<V, paseto_core::version::Local, crate::payload::Raw, crate::payload::TrimFooter> = want_p.parse()?;
+                Ok(t.decrypt_with_aad(&keys::local::<V>(kb), &ad, &paseto_core::validation::NoValidation::dangerous_no_validation())?.claims.0)
+            });
+            match r {
+                Ok(Ok(c)) if c == msg => {}
+                other => o.violate(format!("adapters/{name}/local-typed-footer{tag}"), format!("the model's token with a padded {len}-byte footer is not decrypted through a trimming footer type: the footer piece is not the wire bytes ({:?})", other.map(|r| r.is_ok())), json!({"token": want_p})),
+            }
+        }
         match subject(open) {
             Ok(Ok((c, _))) if c == msg => o.class("adapter-fed-pae-bytes"),
             other => o.violate(format!("adapters/{name}/local-decrypt{tag}"), format!("the specification's token with a {len}-byte {piece} is not decrypted to its message: {:?}", other.map(|r| r.is_ok())), json!({"token": want})),
